@@ -386,7 +386,8 @@ def install(I):
                 raise Inconclusive('blocking select with a send case')
             if isinstance(ch, Native) and ch.kind == 'donechan':
                 if getattr(ch, 'ctx', None) is None:
-                    alts.append(('nil', None))  # a context that is never cancelled
+                    # a context that is never cancelled / one that was cancelled before the goroutines started
+                    alts.append(('always', None) if getattr(ch, 'closed', False) else ('nil', None))
                 else:
                     alts.append(('ctx', world(I).obj('ctx', id(ch.ctx))))
             elif isinstance(ch, Chan):
@@ -914,6 +915,8 @@ def op_semantics(op, st, tid):
             elif kind == 'ctx':
                 # a receiver that has been handed a value is committed to that case
                 ready.append(z3.And(st[name + '.cancelled'], *[z3.Not(h) for h in handed]))
+            elif kind == 'always':
+                ready.append(z3.And(*[z3.Not(h) for h in handed]) if handed else z3.BoolVal(True))
             else:
                 ready.append(z3.BoolVal(False))
         for i, (kind, name) in enumerate(alts):
